@@ -407,6 +407,10 @@ def _peel_ok(t):
         if t[0] == 'try' and strip(t[1])[0] == 'agg' and strip(t[1])[2] == 'Ok' and strip(t[1])[3]:
             t = strip(t[1])[3][0][1]
             continue
+        if t[0] == 'try' and ((strip(t[1])[0] == 'agg' and strip(t[1])[2] in ('Err', 'None')) or (strip(t[1])[0] == 'call' and strip(t[1])[1].endswith('FromResidual::from_residual'))):
+            return INFEASIBLE
+        if t[0] == 'call' and t[1].endswith('FromResidual::from_residual'):
+            return INFEASIBLE
         break
     return t
 
@@ -467,6 +471,38 @@ def encoder_rows(F, fn):
     return out, unknown
 
 
+def _dst_offset(F, fn, t, depth=0):
+    """offset (int) of a mutable sub-slice term inside the array it was carved from, or None"""
+    t0 = strip(t)
+    while t0[0] == 'cast':
+        t0 = strip(t0[2])
+    if depth > 8:
+        return None
+    if t0[0] in ('repeat', 'array', 'var', 'phi', 'arg'):
+        return 0
+    if t0[0] == 'call' and t0[1].endswith(('IndexMut::index_mut', 'Index::index')) and len(t0[2]) == 2:
+        base = _dst_offset(F, fn, t0[2][0], depth + 1)
+        r = strip(t0[2][1])
+        if base is None or r[0] != 'agg':
+            return None
+        if r[1].endswith(('RangeFrom', 'ops::Range')):
+            st = sizeof_value(F, fn, dict(r[3])['start'])
+            return base + st if isinstance(st, int) else None
+        if r[1].endswith(('RangeTo', 'RangeFull', 'RangeToInclusive')):
+            return base
+        return None
+    if t0[0] == 'field' and t0[2] in ('0', '1') and strip(t0[1])[0] == 'call' and strip(t0[1])[1].endswith(('split_at_mut', 'split_at')):
+        sc = strip(t0[1])
+        base = _dst_offset(F, fn, sc[2][0], depth + 1)
+        k = sizeof_value(F, fn, sc[2][1])
+        if base is None or not isinstance(k, int):
+            return None
+        return base + (k if t0[2] == '1' else 0)
+    if t0[0] == 'call' and t0[2] and t0[1].endswith(('DerefMut::deref_mut', 'Deref::deref', 'as_mut_slice', 'as_mut', 'AsMut::as_mut', 'BorrowMut::borrow_mut')):
+        return _dst_offset(F, fn, t0[2][0], depth + 1)
+    return None
+
+
 def array_store_rows(F, fn, local=None):
     """a byte array filled in place: `a[k] = x`, `a[r].copy_from_slice(&y.to_be_bytes())` -> [(offset, what, width, endian)]"""
     rows = []
@@ -475,6 +511,20 @@ def array_store_rows(F, fn, local=None):
             continue
         for st in blk['stmts']:
             p = st['place']
+            through_ref = None
+            if local is None and len(p['p']) == 2 and p['p'][0]['k'] == 'deref' and p['p'][1]['k'] in ('cindex', 'index'):
+                # `sub[k] = x` with `sub` a mutable sub-slice of the array (split_at_mut / index_mut)
+                through_ref = _dst_offset(F, fn, fn.local_term(p['l']))
+            if through_ref is not None:
+                last = p['p'][-1]
+                if last['k'] == 'cindex':
+                    off = last['o']
+                else:
+                    it = strip(fn.local_term(last['l']))
+                    off = it[2] if it[0] == 'const' else None
+                src = fn.term(st['rv']['o']) if st['rv']['k'] == 'use' else fn._def_term(('assign', 0, 0, st['rv'], []), 0, frozenset())
+                rows.append((through_ref + off if off is not None else None, field_path(src), 1, '-'))
+                continue
             if p['p'] and p['p'][-1]['k'] in ('cindex', 'index') and len(p['p']) == 1 and (p['l'] == local if local is not None else fn.local_name(p['l']) is not None):
                 off = None
                 if p['p'][-1]['k'] == 'cindex':
@@ -492,6 +542,8 @@ def array_store_rows(F, fn, local=None):
             while src[0] == 'cast':
                 src = strip(src[2])
             off = None
+            if not (dst[0] == 'call' and dst[1].endswith('index_mut')) and local is None:
+                off = _dst_offset(F, fn, dst)
             if dst[0] == 'call' and dst[1].endswith('index_mut'):
                 base = strip(dst[2][0])
                 if local is not None and not (base[0] in ('var', 'phi', 'repeat') and base[1] == local):
@@ -862,7 +914,7 @@ def check_prefix_agrees(ctx, rule):
         return
     enc, unk = encoder_rows(F, f)
     key = [norm_row(r) for r in ref['key']]
-    variants = sorted([tuple(tuple(r) for r in rows) for rows in enc.values()], key=len)
+    variants = sorted({tuple(tuple(r) for r in rows) for rows in enc.values()}, key=len)
     want_short = (key[0],)
     want_long = (key[0], ('mode', key[1][1], key[1][2]))
     norm = []
